@@ -15,6 +15,7 @@ R05.1  every call of Token::linenr() / Token::column() in lib/ whose value (dire
                              order every rewrite of the family preserves.
        Any other function is reported with the line.  Uses that only build messages, locations, dump ids or copy
        positions are not decisions and are ignored.
+R05.2  token lists are rendered with line breaks / line numbers / file names only by the printers of the Token class.
 """
 from .common.facts import walk, walk_parents, strip, call_args, AnalysisBroken
 
@@ -91,9 +92,54 @@ def run(ctx):
             ctx.ob('R05.1', 'decision:%s' % name, False,
                    '%s branches on a comparison of token line/column numbers at line(s) %s: two layouts of the same token sequence (statement on one line / on several '
                    'lines) take different branches, so a finding can appear or disappear when only whitespace changes' % (name, lines), where)
+    r05_2(ctx)
     ctx.floor('R05.1 linenr()/column() calls in lib/', ncalls, 80)
     ctx.floor('R05.1 position comparisons', ndec, 10)
     for tab in (LAYOUT_SENSITIVE,):
         for name in tab:
             if name not in seen_tab:
                 ctx.note('table entry %s no longer compares positions (can be removed)' % name)
+
+
+def r05_2(ctx):
+    """R05.2  layout-carrying text: a token list rendered with line breaks, line numbers or file names encodes the layout; such text may be printed
+    but not produced by analysis code (where it ends up in comparisons or messages that decide or change findings).  Outside the Token class's own
+    printers no function sets stringifyOptions::{linenumbers,linebreaks,files}, calls the forDebug*/forPrintOut presets, or calls the five-bool
+    stringifyList overload with a layout flag that is not literally false."""
+    F = ctx.facts
+    ctx.rule('R05.2', 'analysis code does not render token lists with layout (line breaks / numbers / files)')
+    LAYOUT = ('linenumbers', 'linebreaks', 'files')
+    PRINTERS = ('Token::', 'Tokenizer::printDebugOutput', 'TemplateSimplifier::printOut', 'SymbolDatabase::printOut', 'Tokenizer::dump')
+    n = 0
+    bad = 0
+    for f in F.all_fns():
+        if not f['file'].startswith('lib/'):
+            continue
+        hits = []
+        for a in f['acc']:
+            if a['n'].startswith('Token::stringifyOptions::') and a['n'].split('::')[-1] in LAYOUT and a['a'] != 'r':
+                hits.append(('sets stringifyOptions::%s' % a['n'].split('::')[-1], a['l']))
+        for c in f['calls']:
+            if 'stringifyOptions::forDebug' in c['f'] or 'stringifyOptions::forPrintOut' in c['f']:
+                hits.append(('uses the preset %s' % c['f'].split('(')[0].split('::')[-1], c.get('l')))
+        if any(c['f'].startswith('Token::stringifyList(bool') for c in f['calls']):
+            b = F.body(f)
+            for x in walk((b or {}).get('body') or {}):
+                if x.get('k') == 'CXXMemberCallExpr' and (x.get('fid') or '').startswith('Token::stringifyList(bool'):
+                    args = call_args(x)
+                    for i, nm in ((2, 'linenumbers'), (3, 'linebreaks'), (4, 'files')):
+                        if i < len(args):
+                            a0 = strip(args[i])
+                            if not (a0 is not None and a0.get('k') == 'CXXBoolLiteralExpr' and a0.get('v') is False):
+                                hits.append(('passes %s to stringifyList' % nm, x['l']))
+        if not hits:
+            continue
+        n += 1
+        if f['name'].startswith(PRINTERS):
+            ctx.ob('R05.2', 'layout-text:%s' % f['name'], True, '%s %s: a printer of the Token class / debug output' % (f['name'], hits[0][0]), '%s:%s' % (f['file'], hits[0][1]))
+            continue
+        bad += 1
+        ctx.ob('R05.2', 'layout-text:%s' % f['name'], False,
+               '%s %s (line %s): the resulting text differs between two layouts of the same tokens, and this function is not a printer - what is compared with it or '
+               'put into a finding changes when only whitespace changes' % (f['name'], hits[0][0], hits[0][1]), '%s:%s' % (f['file'], hits[0][1]))
+    ctx.floor('R05.2 functions producing layout-carrying text', n, 3)
